@@ -98,6 +98,21 @@ template <bool NoneIsLeaf>
     // registry on the same thread.
     const bool is_structseq_class = IsStructSequenceClass(cls);
     const bool is_namedtuple_class = !is_structseq_class && IsNamedTupleClass(cls);
+    std::string warning_message{};
+    if (is_structseq_class || is_namedtuple_class) [[unlikely]] {
+        // NOTE: build the message up front, `repr()` may raise and nothing must fail halfway.
+        std::ostringstream oss{};
+        oss << "PyTree type " << PyRepr(cls)
+            << (is_structseq_class ? " is a class of `PyStructSequence`, "
+                                   : " is a subclass of `collections.namedtuple`, ")
+            << "which is already registered in the global namespace. "
+               "Override it with custom flatten/unflatten functions";
+        if (!registry_namespace.empty()) [[likely]] {
+            oss << " in namespace " << PyRepr(registry_namespace);
+        }
+        oss << ".";
+        warning_message = oss.str();
+    }
     (void)Singleton<NONE_IS_NODE>();
     (void)Singleton<NONE_IS_LEAF>();
 
@@ -145,18 +160,8 @@ template <bool NoneIsLeaf>
         throw py::value_error(oss.str());
     }
 
-    if (is_structseq_class || is_namedtuple_class) [[unlikely]] {
-        std::ostringstream oss{};
-        oss << "PyTree type " << PyRepr(cls)
-            << (is_structseq_class ? " is a class of `PyStructSequence`, "
-                                   : " is a subclass of `collections.namedtuple`, ")
-            << "which is already registered in the global namespace. "
-               "Override it with custom flatten/unflatten functions";
-        if (!registry_namespace.empty()) [[likely]] {
-            oss << " in namespace " << PyRepr(registry_namespace);
-        }
-        oss << ".";
-        if (PyErr_WarnEx(PyExc_UserWarning, oss.str().c_str(), /*stack_level=*/2) < 0)
+    if (!warning_message.empty()) [[unlikely]] {
+        if (PyErr_WarnEx(PyExc_UserWarning, warning_message.c_str(), /*stack_level=*/2) < 0)
             [[unlikely]] {
             // The warning was turned into an exception: undo the registration.
             {
